@@ -200,6 +200,7 @@ def _boundary():
         for vic in itertools.product(range(n + 1), repeat=n):
             modes = ["fini", "clearall", "drop"] + ["clear%d" % k for k in range(1, n + 1)] + ["cset%d" % k for k in range(1, n + 1)]
             out.append(("b:reentry:%s" % "".join(map(str, vic)), ["e new nofb"] + ["e reentry %s %s" % (m, ",".join(map(str, vic))) for m in modes]))
+    out.append(("b:reentry:fallback", ["e new nofb", "e fbreentry", "e set 1", "e fbreentry", "e fini", "e fbreentry"]))
     out.append(("b:reentry:long", ["e new fb", "e reentry fini 2,3,4,5,6,7,8,0", "e reentry clearall 0,1,2,3,4,5,6,7", "e reentry drop 8,8,8,8,8,8,8,8",
                                   "e reentry clear8 0,0,0,0,0,0,0,1", "e reentry cset1 2,1", "e reentry fini 9", "e reentry clear3 1,2", "e reentry boom 1"]))
     # the dispatcher's own fallback reply context (_ctx): used by emit, released by fini, the dispatcher is used on
